@@ -9,6 +9,9 @@ import os, sys, re, json, time, shutil, subprocess, hashlib, random, tempfile, a
 
 VERIF = os.path.dirname(os.path.dirname(os.path.abspath(__file__)))
 REPO = os.environ.get("VERIF_REPO", "/repo")
+# runs against a seeded scratch tree (tools/try_seed.sh, tools/seed_pipeline.sh, bin/selftest) write their evidence elsewhere, so that the
+# committed evidence always comes from runs on /repo itself
+EVIDENCE_DIR = os.environ.get("VERIF_EVIDENCE_DIR", os.path.join(VERIF, "evidence"))
 SPEC = os.path.join(VERIF, "spec")
 DRV = os.path.join(VERIF, "drivers")
 OUT = os.path.join(VERIF, "out")
@@ -436,7 +439,7 @@ class Report:
 
     def finish(self):
         os.makedirs(os.path.join(OUT, "replay"), exist_ok=True)
-        os.makedirs(os.path.join(VERIF, "evidence"), exist_ok=True)
+        os.makedirs(EVIDENCE_DIR, exist_ok=True)
         nviol = 0
         kf = []
         for key in sorted(self.hits):
@@ -461,7 +464,7 @@ class Report:
         ev = {"property_id": self.pid, "tier": self.tier, "seed": seed(), "level": self.level,
               "coverage": cov, "assumptions": self.assumptions,
               "wall_s": round(time.time() - self.t0, 2), "violations": nviol}
-        with open(os.path.join(VERIF, "evidence", self.pid + ".json"), "w") as f:
+        with open(os.path.join(EVIDENCE_DIR, self.pid + ".json"), "w") as f:
             json.dump(ev, f, indent=1, default=str)
         log("%s %s: evaluations=%d distinct=%d states=%d traces=%d violations=%d known=%d wall=%.1fs" %
             (self.pid, self.tier, cov["evaluations"], cov["distinct_nontrivial"], cov["states"],
